@@ -387,20 +387,12 @@ Proof.
     apply content_canon. lia.
 Qed.
 (** the canonical encoding is injective *)
-Lemma app_inj_len {A} (a1 b1 a2 b2 : list A) : length b1 = length b2 -> a1 ++ b1 = a2 ++ b2 -> b1 = b2.
-Proof.
-  intros Hl E. assert (length a1 = length a2). { apply (f_equal (@length A)) in E. rewrite !app_length in E. lia. }
-  revert a2 H E. induction a1 as [|x a1 IH]; intros [|y a2] Hl' E; cbn [length] in Hl'; try discriminate.
-  - exact E.
-  - cbn [app] in E. injection E as _ E. apply (IH a2); [lia | assumption].
-Qed.
 Theorem sp_der_encode_inj x y : 0 <= x -> 0 <= y -> sp_der_encode x = sp_der_encode y -> x = y.
 Proof.
   intros Hx Hy E. destruct (Z.eq_dec (sp_der_content_len x) (sp_der_content_len y)) as [El|Nl].
   - apply content_inj; try assumption. unfold sp_der_encode in E. rewrite El in E.
     apply app_inv_head in E. assumption.
   - exfalso. (* different content lengths: the encodings decode to both values *)
-    assert (Hwx : wfd 256 (sp_der_encode x) \/ True) by (right; exact I).
     pose proof (content_len_pos x). pose proof (content_len_pos y).
     pose proof (f_equal sp_der_header_size E) as Hs. unfold sp_der_encode in Hs. rewrite !header_size_ok in Hs by lia.
     unfold sp_der_encode in E.
